@@ -159,7 +159,7 @@ def make_elem(space, vals, layout, rng):
     arr = np.array(vals, dtype=space.dtype).reshape(shape)   # always a private copy
     if layout == 'mixed':
         layout = rng.choice(['C', 'F'])
-    layout = {'S': 'strided'}.get(layout, layout)
+    layout = {'S': 'strided', 'shaped': 'C'}.get(layout, layout)
     if layout == 'C':
         data = np.ascontiguousarray(arr)
     elif layout == 'F':
@@ -227,6 +227,11 @@ def lincomb_cases(ctx, small, medium):
     rng.shuffle(rest)
     cross += rest[:(10 if quick else len(rest))]
     large_keep += [(medium, 'float64', 'pat:' + pat, al, 'cross') for al, pat in cross]
+    # spaces built with a SHAPED dtype (rn(n, dtype=(float, (2,))) == rn((2, n))): the entry count
+    # handed to BLAS must be that of the full shape
+    large_keep += [(2 * medium, 'float64', 'shaped', al, 'cross') for al in ('none', 'all', 'outx1')]
+    plans += [(s2, dt, 'shaped', al, 'few') for s2 in (6, 2 * small, 2 * small + 2)
+              for dt in ('float64', 'complex64', 'int32') for al in ('none', 'outx2')]
     if quick:
         # keep every (regime, dtype, layout, alias) but sample sizes inside the regime
         keep = {}
@@ -251,7 +256,12 @@ def lincomb_cases(ctx, small, medium):
             shape = (size,)
         if len(shape) == 1 and layout == 'F':
             pass  # 1-d arrays are both C and F contiguous: still a distinct request
-        space = odl.tensor_space(shape, dtype=dtype)
+        if layout == 'shaped':
+            shape = (2, size // 2)
+            space = odl.tensor_space(size // 2, dtype=(dtype, (2,)))
+            assert space.shape == shape
+        else:
+            space = odl.tensor_space(shape, dtype=dtype)
         if np.issubdtype(dtype, np.integer):
             classes = SC_INT
         elif np.issubdtype(dtype, np.complexfloating):
